@@ -14,7 +14,7 @@
 (* Auxiliary Booleans are enumerated (depth-first with pruning), real      *)
 (* auxiliaries are eliminated exactly (FM).  Declared variables are        *)
 (* quantified over the sample grid Samples(d).                             *)
-EXTENDS Sem, FM, Json, IOUtils, TLC
+EXTENDS Grid, FM, Json, IOUtils, TLC
 
 Rec == ndJsonDeserialize(IOEnv.TRACE)
 Props == IOEnv.PROPS              \* e.g. "C01,C02"
@@ -25,40 +25,6 @@ Has(p) == \E i \in 1..(Len(Props) - 2) : SubSeq(Props, i, i + 2) = p
 
 VARIABLE l
 vars == <<l>>
-
----------------------------------------------------------------------------
-(* sample grid of one declared variable d = [name, kind, lo, hi]; g = grid  *)
-(* denominator (1, 2 or 4) chosen per event by the driver                   *)
-W == 4
-FloorQ(b, g) == (b.n * g) \div b.d            \* floor(b * g)
-CeilQ(b, g) == -(((-b.n) * g) \div b.d)
-Clip(x, lo, hi) == IF x < lo THEN lo ELSE IF x > hi THEN hi ELSE x
-Far == {1024, 32768}
-Samples(d, g) ==
-   CASE d.kind = "bool" -> {R(0), R(1)}
-     [] d.kind = "int" ->
-          LET lo == Clip(d.lo.n - 1, -W - 1, W + 1)
-              hi == Clip(d.hi.n + 1, -W - 1, W + 1)
-          IN  {R(i) : i \in lo..hi}
-     [] OTHER ->
-          LET lo == IF d.lo.inf # 0 THEN -W * g ELSE Clip(FloorQ(d.lo, g) - 1, -W * g, W * g)
-              hi == IF d.hi.inf # 0 THEN W * g ELSE Clip(CeilQ(d.hi, g) + 1, -W * g, W * g)
-              far == (IF d.hi.inf # 0 THEN {R(f) : f \in Far} ELSE {})
-                     \cup (IF d.lo.inf # 0 THEN {R(-f) : f \in Far} ELSE {})
-          IN  {Norm(i, g) : i \in lo..hi} \cup far
-
-UsedDecls(ev) == SelectSeq(ev.sdom, LAMBDA d : d.used)
-RECURSIVE EnvsR(_, _, _)
-EnvsR(ds, i, g) ==
-   IF i > Len(ds) THEN {<<>>}
-   ELSE {(ds[i].name :> v) @@ e : v \in Samples(ds[i], g), e \in EnvsR(ds, i + 1, g)}
-Envs(ev) == EnvsR(UsedDecls(ev), 1, ev.g)
-
----------------------------------------------------------------------------
-(* source side *)
-SatSrc(ev, env) ==
-   /\ \A i \in 1..Len(ev.sdom) : ev.sdom[i].used => InDom(ev.sdom[i], env[ev.sdom[i].name])
-   /\ \A i \in 1..Len(ev.cons) : SatCon(ev.cons[i], env)
 
 ---------------------------------------------------------------------------
 (* linear side *)
@@ -142,7 +108,7 @@ Best(ev, env) ==
 
 ---------------------------------------------------------------------------
 (* acceptance predicates; each returns the set of counterexample records   *)
-Judgeable(ev) == ev.out = "ok" /\ OtherAux(ev) = {}
+Judgeable(ev) == ev.out = "ok" /\ ev.exact /\ OtherAux(ev) = {}
 
 BadFeas(ev) == {env \in Envs(ev) : SatSrc(ev, env) # ExistsAux(ev, env)}
 BadObj(ev) == IF ev.sense \notin {"min", "max"} THEN {}
@@ -150,6 +116,48 @@ BadObj(ev) == IF ev.sense \notin {"min", "max"} THEN {}
             LET b == Best(ev, env) IN ~(b.st = "opt" /\ b.v = Eval(ev.obj, env))}
 \* C07a: every source-feasible sample lies inside the published ranges
 BadRange(ev) == {env \in Envs(ev) : SatSrc(ev, env) /\ ~FixedOk(ev, env)}
+
+---------------------------------------------------------------------------
+(* C08: structure of the output (ev.shape is observable for every successful *)
+(* compile, also when the numbers themselves cannot cross to TLC) and the    *)
+(* shape of the allowed errors                                               *)
+Rng(s) == {s[i] : i \in 1..Len(s)}
+SrcNames(ev) == {ev.cons[i].name : i \in 1..Len(ev.cons)} \ {""}
+SrcVars(ev) == VarsOf(ev.obj) \cup UNION {VarsOf(ev.cons[i].lhs) \cup
+                  (IF ev.cons[i].assert THEN {} ELSE VarsOf(ev.cons[i].rhs)) : i \in 1..Len(ev.cons)}
+Declared(ev) == {ev.sdom[i].name : i \in 1..Len(ev.sdom)}
+If(c, what) == IF c THEN {what} ELSE {}
+IllFormed(ev) ==
+   LET sh == ev.shape
+       n  == Len(sh.names)
+       rn == sh.rownames
+       m  == Len(rn)
+   IN  If(\E i \in 1..(n - 1) : sh.rank[i] >= sh.rank[i + 1], "variable list not sorted and duplicate-free")
+       \cup If(Rng(sh.domkeys) # Rng(sh.names) \/ Len(sh.domkeys) # n, "domain key set differs from variable list")
+       \cup If(~(SrcVars(ev) \subseteq Rng(sh.names)), "a variable of the source is missing")
+       \cup If(\E i \in 1..Len(sh.rowlens) : sh.rowlens[i] # n, "row without exactly one coefficient per variable")
+       \cup If(sh.objlen # n, "objective without exactly one coefficient per variable")
+       \cup If(Len(sh.nonfinite) > 0, "non-finite number")
+       \cup If(\E i, j \in 1..m : i < j /\ rn[i].name # "" /\ rn[i].name = rn[j].name, "duplicate row name")
+       \cup If(\E i \in 1..m : rn[i].name # "" /\ rn[i].name \notin SrcNames(ev)
+                   /\ ~(rn[i].k >= 2 /\ rn[i].base \in SrcNames(ev)), "row name not derived from a user name")
+       \cup If(\E i \in 1..m : rn[i].name # "" /\ rn[i].name \notin SrcNames(ev)
+                   /\ ~(\E j \in 1..(i - 1) : rn[j].name = rn[i].base), "first use of a user name not preserved")
+       \cup If(sh.sense # ev.sense, "optimisation sense changed")
+ErrKinds == {"NonLinearExpression", "DivisionByZero", "EmptyAggregation", "VarAlreadyDeclared",
+             "UnimplementedExpression", "NonBinaryLogicOperand", "MissingFiniteBounds",
+             "NonFiniteConstant"}
+HasInfSide(ev, nm) == \E i \in 1..Len(ev.sdom) : ev.sdom[i].name = nm /\ (ev.sdom[i].lo.inf # 0 \/ ev.sdom[i].hi.inf # 0)
+BadErr(ev) ==
+   If(ev.err.kind \notin ErrKinds, "unstructured error")
+   \cup If(ev.err.kind = "VarAlreadyDeclared" /\ ev.err.name \notin Declared(ev), "auxiliary clash without a user variable of that name")
+   \cup If(ev.err.kind = "MissingFiniteBounds" /\
+           (\E v \in Rng(ev.err.variables) : v \notin Rng(ev.err.exprvars) \/ (v \in Declared(ev) /\ ~HasInfSide(ev, v))),
+           "missing-bounds error names a variable that is bounded or not in the expression")
+CheckWF(ev) ==
+   LET bad == CASE ev.out = "ok" -> IllFormed(ev) [] ev.out = "err" -> BadErr(ev)
+                [] ev.out = "panic" -> {"panic"} [] OTHER -> {}
+   IN  IF bad = {} THEN TRUE ELSE PrintT(<<"REJECT", "C08", ev.id, CHOOSE b \in bad : TRUE, ToJson(bad)>>)
 
 Report(p, ev, bad, what) ==
    IF bad = {} THEN TRUE
@@ -161,11 +169,12 @@ Stat(ev) == LET es == Envs(ev)
                          Len(BoolAux(ev)), Len(ContAux(ev))>>)
 
 Check(ev) ==
-   IF ~Judgeable(ev) THEN PrintT(<<"SKIP", ev.id, ev.out>>)
-   ELSE /\ (Has("C01") => Report("C01", ev, BadFeas(ev), "projection"))
-        /\ (Has("C02") => Report("C02", ev, BadObj(ev), "objective"))
-        /\ (Has("C07") => Report("C07", ev, BadRange(ev), "range"))
-        /\ (Has("STA") => Stat(ev))
+   /\ (Has("C08") => CheckWF(ev))
+   /\ IF ~Judgeable(ev) THEN PrintT(<<"SKIP", ev.id, ev.out>>)
+      ELSE /\ (Has("C01") => Report("C01", ev, BadFeas(ev), "projection"))
+           /\ (Has("C02") => Report("C02", ev, BadObj(ev), "objective"))
+           /\ (Has("C07") => Report("C07", ev, BadRange(ev), "range"))
+           /\ (Has("STA") => Stat(ev))
 
 Init == l = Start
 Next == l <= Len(Rec) /\ Check(Rec[l]) /\ l' = l + 1
